@@ -283,6 +283,16 @@ func StructBuilder(env *Zlisp, name string,
 
 	structName := symN.name
 
+	// sanity check the name, as defn, func and interface do: the type name
+	// goes into the process-wide registry and is bound in every interpreter
+	// made afterwards.
+	builtin, builtTyp := env.IsBuiltinSym(symN)
+	if builtin {
+		return SexpNull,
+			fmt.Errorf("already have %s '%s', refusing to overwrite with struct",
+				builtTyp, symN.name)
+	}
+
 	{
 		// begin enable recursion -- add ourselves to the env early, then
 		// update later, so that structs can refer to themselves.
